@@ -5,7 +5,7 @@
    without '\n'; the reader follows ANY schedule [sch] of read sizes. *)
 From Coq Require Import ZArith List Bool.
 From RM Require Import Base.Word C08.Model C11.Model C09.Model C09.Grammar C09.Driver C09.Proofs C09.ProofsBytes C09.ProofsFinish C09.ProofsFinal C09.ProofsTrace C09.Circular C09.ProofsCircular C09.ProofsLines C09.ProofsTable.
-From RM Require C09.Pins C09.PinsMem C08.Proofs C09.PinsNum Gen.C09Numeric C09.ProofsText C09.ProofsRecord.
+From RM Require C09.Pins C09.PinsMem C08.Proofs C09.PinsNum Gen.C09Numeric C09.ProofsText C09.ProofsRecord C09.ProofsRecord2.
 Import ListNotations.
 Open Scope Z_scope.
 
@@ -620,3 +620,38 @@ Example c09_nonvacuous_record :
    p_file (to_rle [70; 73; 76; 69; 88; 32; 49; 32; 120]))
   = (POk (IFile 12 [(97, 1); (195, 1); (169, 1)]), PFail, PFail, PErr).
 Proof. split; [rewrite PinsNum.expand_to_rle; exact ProofsRecord.file_line_example|vm_compute; reflexivity]. Qed.
+
+(* Three more record kinds as declarative grammars over BYTES, both directions: STACK CFI INIT records, STACK CFI delta
+   sub-lines, and the line records of a FUNC (hex{1,16} / hex{1,8} fields, decimal fields <= u32::MAX, sp+ between fields,
+   rules text without '\r' that is well-formed UTF-8, cr* before the newline).  Still without a declarative counterpart:
+   MODULE, INFO, PUBLIC, FUNC (optional `m`), INLINE (separated_list1), STACK WIN. *)
+Theorem c09_cfi_and_line_record_grammar :
+  forall s : rle,
+    (forall it, p_stack_cfi_init s = POk it ->
+        exists a sz r rules, it = ICfiInit (mk_cfi (mk_rule a r) sz []) /\
+                             ProofsRecord2.cfi_init_line (PinsNum.expand s) a sz rules /\ PinsNum.expand r = rules) /\
+    (forall a sz rules, ProofsRecord2.cfi_init_line (PinsNum.expand s) a sz rules ->
+        exists r, p_stack_cfi_init s = POk (ICfiInit (mk_cfi (mk_rule a r) sz [])) /\ PinsNum.expand r = rules) /\
+    (forall x, sub_cfi s = Some x ->
+        exists a r rules, x = mk_rule a r /\ ProofsRecord2.cfi_add_line (PinsNum.expand s) a rules /\ PinsNum.expand r = rules) /\
+    (forall a rules, ProofsRecord2.cfi_add_line (PinsNum.expand s) a rules ->
+        exists r, sub_cfi s = Some (mk_rule a r) /\ PinsNum.expand r = rules) /\
+    (forall x, sub_line_data s = Some x ->
+        exists a sz ln fl, x = mk_line a sz fl ln /\ ProofsRecord2.line_rec_line (PinsNum.expand s) a sz ln fl) /\
+    (forall a sz ln fl, ProofsRecord2.line_rec_line (PinsNum.expand s) a sz ln fl -> sub_line_data s = Some (mk_line a sz fl ln)).
+Proof.
+  intros s. split; [apply ProofsRecord2.cfi_init_sound|]. split; [apply ProofsRecord2.cfi_init_complete|].
+  split; [apply ProofsRecord2.cfi_add_sound|]. split; [apply ProofsRecord2.cfi_add_complete|].
+  split; [apply ProofsRecord2.line_rec_sound|apply ProofsRecord2.line_rec_complete].
+Qed.
+Print Assumptions c09_cfi_and_line_record_grammar.
+
+(* non-vacuity: "1000 10 7 1\r" has the shape of a line record and is recognised as address 0x1000, size 0x10, line 7,
+   file 1; with an eleventh digit in the file field, or a byte 0xE9 after the digits, it is not *)
+Example c09_nonvacuous_line_record :
+  ProofsRecord2.line_rec_line (PinsNum.expand (to_rle [49; 48; 48; 48; 32; 49; 48; 32; 55; 32; 49; 13])) 4096 16 7 1 /\
+  (sub_line_data (to_rle [49; 48; 48; 48; 32; 49; 48; 32; 55; 32; 49; 13]),
+   sub_line_data (to_rle [49; 48; 48; 48; 32; 49; 48; 32; 55; 32; 48; 48; 48; 48; 48; 48; 48; 48; 48; 48; 49]),
+   sub_line_data (to_rle [49; 48; 48; 48; 32; 49; 48; 32; 55; 32; 49; 233]))
+  = (Some (mk_line 4096 16 1 7), None, None).
+Proof. split; [rewrite PinsNum.expand_to_rle; exact ProofsRecord2.line_rec_example|vm_compute; reflexivity]. Qed.
